@@ -163,9 +163,9 @@ func (c *sqlConn) QueryContext(_ context.Context, q string, args []driver.NamedV
 		}
 		d.S.Point(simrt.KSeam, "sql.query.ret")
 		if rec, ok := d.rows[id][created]; ok {
-			return &sqlRows{vals: []string{rec}}, nil
+			return d.rowsWithFault(&sqlRows{vals: []string{rec}, failAt: -1}), nil
 		}
-		return &sqlRows{}, nil
+		return d.rowsWithFault(&sqlRows{failAt: -1}), nil
 	}
 	if m := reSelectLatest.FindStringSubmatch(q); m != nil {
 		idv, err := d.arg(m[1], &seq, args)
@@ -192,7 +192,7 @@ func (c *sqlConn) QueryContext(_ context.Context, q string, args []driver.NamedV
 		if m[6] != "" {
 			limit, _ = strconv.Atoi(m[6])
 		}
-		rows := &sqlRows{}
+		rows := &sqlRows{failAt: -1}
 		for i, cr := range cs {
 			if i >= limit {
 				break
@@ -200,7 +200,7 @@ func (c *sqlConn) QueryContext(_ context.Context, q string, args []driver.NamedV
 			rows.vals = append(rows.vals, d.rows[id][cr])
 		}
 		d.S.Point(simrt.KSeam, "sql.query.ret")
-		return rows, nil
+		return d.rowsWithFault(rows), nil
 	}
 	panic(HarnessError{"sql statement not understood by the fake: " + q})
 }
@@ -257,13 +257,18 @@ func (c *sqlConn) ExecContext(_ context.Context, q string, args []driver.NamedVa
 }
 
 type sqlRows struct {
-	vals []string
-	i    int
+	vals   []string
+	i      int
+	failAt int // index of the row whose fetch fails (-1 never)
 }
 
 func (r *sqlRows) Columns() []string { return []string{"key_record"} }
 func (r *sqlRows) Close() error      { return nil }
 func (r *sqlRows) Next(dest []driver.Value) error {
+	if r.failAt >= 0 && r.i == r.failAt {
+		r.failAt = -1
+		return ErrInjected // the connection dropped while the result set was being read
+	}
 	if r.i >= len(r.vals) {
 		return io.EOF
 	}
@@ -284,4 +289,17 @@ func (d *SQLDB) PutRaw(id string, created int64, rec string) {
 		d.rows[id] = map[int64]string{}
 	}
 	d.rows[id][created] = rec
+}
+
+// rowsWithFault optionally makes the fetch of the first row fail (the query itself succeeded).
+func (d *SQLDB) rowsWithFault(r *sqlRows) *sqlRows {
+	if d.Faults && d.T.Chance(1, 10, "sql.rowfault?") {
+		r.failAt = 0
+		d.Stats["fault:rows.next"]++
+		if d.FaultOf == nil {
+			d.FaultOf = map[int]string{}
+		}
+		d.FaultOf[d.S.Cur().ID] = "rows.next"
+	}
+	return r
 }
